@@ -221,6 +221,49 @@ fn gen(a: &Args) {
     for (i, s) in sizes.iter().enumerate() {
         single_size_cases(&mut o, &mut r, *s, i % 97 == 0);
     }
+    // 1b. large tables, sampled around the powers of two (where buffered / chunked I/O changes regime)
+    let kmax = if thorough { 20 } else { 18 };
+    for k in 13..=kmax {
+        let p = 1u64 << k;
+        let mut big = vec![p - 8, p - 1, p, p + 23, p + r.range(1, p - 1)];
+        if thorough {
+            big.extend([p - 9, p + 1, p + 24, p + 31, p + 32, 3 * p]);
+        }
+        for size in big {
+            o.case("raw");
+            let mut f = header(some_k(&mut r), 1, some_occ(&mut r) >> 1);
+            f.extend(table_record(&mut r, size));
+            o.op(&format!("load {}", hex(&f)));
+            o.op("save");
+            o.op("rt");
+            if r.chance(1, 4) {
+                o.op(&format!("gz {}", r.range(1, 9)));
+            }
+            o.case(&format!("new {} {}", some_k(&mut r), size));
+            for b in boundary_bits(size) {
+                o.op(&format!("count {}", b));
+            }
+            for _ in 0..8 {
+                o.op(&format!("count {}", r.bits(64)));
+            }
+            o.op("save");
+            o.op("rt");
+            o.op("dump");
+        }
+    }
+    // two large tables in one file: the second must start at the right offset
+    for _ in 0..(if thorough { 12 } else { 3 }) {
+        let k = r.range(13, 17);
+        let sizes = [(1u64 << k) - r.range(0, 9), (1u64 << k) + r.range(0, 40)];
+        o.case("raw");
+        let mut f = header(some_k(&mut r), 2, some_occ(&mut r) >> 1);
+        for s in sizes {
+            f.extend(table_record(&mut r, s));
+        }
+        o.op(&format!("load {}", hex(&f)));
+        o.op("save");
+        o.op("rt");
+    }
     // 2. multi-table graphs, table counts up to 255
     let mut counts: Vec<usize> = vec![1, 2, 3, 4, 5, 6, 7, 8, 16, 31, 32, 33, 64, 127, 128, 200, 254, 255, 255];
     let extra = if thorough { 3000 } else { 300 };
